@@ -66,6 +66,7 @@ class Ctx:
         self.depth = depth
         self.ub = []                        # UB found inside an otherwise evaluated expression
         self.arrays = {}                    # member array name -> {index: raw element value} (read through any pointer cast)
+        self.objects = {}                   # name of another object (parameter) -> {member: value}
 
 
 def _callee_decl(ctx, n):
@@ -139,6 +140,10 @@ def ev(n, ctx):
             if decl is not None and decl.get("kind") == "VarDecl" and ir.ekids(decl):
                 return conv(ev(ir.ekids(decl)[-1], Ctx(ctx.d)), ir.qtype(decl))
             raise Unknown("member %s" % nm)
+        if base is not None and base.get("kind") == "DeclRefExpr":
+            on = (base.get("referencedDecl") or {}).get("name")
+            if on in ctx.objects and n.get("name") in ctx.objects[on]:
+                return ctx.objects[on][n.get("name")]
         raise Unknown("member of another object")
     if k == "ArraySubscriptExpr":
         base = ks[0]
@@ -232,6 +237,7 @@ def ev(n, ctx):
             raise Unknown("argument count")
         sub = Ctx(ctx.d, {}, ctx.members, ctx.depth + 1)
         sub.arrays = ctx.arrays
+        sub.objects = ctx.objects
         for p, a in zip(ps, args):
             sub.env[p.get("id")] = conv(ev(a, ctx), ir.qtype(p)) if rng(ir.qtype(p)) else ev(a, ctx)
         for v in decls:
